@@ -91,6 +91,10 @@ def linearize(t, depth=0):
                 return la.scale(lb.c)
         if o == "<<" and b.k == "const" and isinstance(b.a[0], int) and 0 <= b.a[0] < 64:
             return Lin({t: 1})
+        if o == "|":
+            f_ = _be_field(t)
+            if f_ is not None:
+                return Lin({f_: 1})
         return Lin({t: 1})
     if k == "un":
         o, a = t.a
@@ -123,6 +127,40 @@ def linearize(t, depth=0):
             if lc.key() == lb.key() and term_range(c.a[1])[0] == 0:
                 return lb
     return Lin({t: 1})
+
+
+def _be_field(t):
+    """(b[k] << 8(n-1)) | ... | b[k+n-1] for n in {2, 4, 8} consecutive octets of one buffer symbol is the big-endian
+    unsigned field struct.unpack reads there: one canonical atom for both spellings"""
+    parts, stack = [], [t]
+    while stack:
+        x = stack.pop()
+        if x.k == "op" and x.a[0] == "|":
+            stack += [x.a[1], x.a[2]]
+        else:
+            parts.append(x)
+    got = {}
+    root = None
+    for p_ in parts:
+        sh = 0
+        if p_.k == "op" and p_.a[0] == "<<" and p_.a[2].k == "const" and isinstance(p_.a[2].a[0], int):
+            sh, p_ = p_.a[2].a[0], p_.a[1]
+        if not (p_.k == "idx" and p_.a[0].k == "sym" and p_.a[1].k == "const" and isinstance(p_.a[1].a[0], int) and sh % 8 == 0):
+            return None
+        if root is None:
+            root = p_.a[0]
+        elif root != p_.a[0]:
+            return None
+        if sh in got:
+            return None
+        got[sh] = p_.a[1].a[0]
+    n = len(got)
+    if n not in (2, 4, 8) or sorted(got) != [8 * i for i in range(n)]:
+        return None
+    k0 = got[8 * (n - 1)]
+    if any(got[8 * (n - 1 - i)] != k0 + i for i in range(n)) or k0 < 0:
+        return None
+    return T("unpacked", {2: "!H", 4: "!I", 8: "!Q"}[n], T("slice", root, C(k0), C(k0 + n), ty="bytes"), ty="int")
 
 
 # ---------------------------------------------------------------------------- atom ranges
